@@ -14,6 +14,14 @@ Theorem C16_window_exact_default_end : forall s eo now t, t <= now ->
 Proof. exact window_exact_default. Qed.
 Print Assumptions C16_window_exact_default_end.
 
+(** with a metadata filter next to the window ([m]: the recording's stored metadata satisfies the filter): listed
+    iff inside the window and matching - the filter never widens or narrows the window *)
+Theorem C16_window_exact_matching : forall s eo now filtered t m, t <= now ->
+  (listed_matching s eo now filtered t m = true <->
+   s <= t <= resolve_end eo now /\ (filtered = true -> m = true)).
+Proof. exact window_exact_matching. Qed.
+Print Assumptions C16_window_exact_matching.
+
 Theorem C16_days_cover : forall s e t, s <= t <= e -> In (day t) (days_enumerated s e).
 Proof. exact days_cover. Qed.
 Print Assumptions C16_days_cover.
@@ -38,5 +46,9 @@ Example C16_example :
   s <= D + 5 <= e /\ days_enumerated s e = [0; 1; 2] /\
   listed s e s = true /\ listed s e (D + 5) = true /\ listed s e e = true /\
   listed s e (s - 1) = false /\ listed s e (e + 1) = false /\
-  listed_opt s None (e + h) e = true /\ e <= e + h /\ legacy_days_enumerated s e = [0; 1].
+  listed_opt s None (e + h) e = true /\ e <= e + h /\ legacy_days_enumerated s e = [0; 1] /\
+  listed_matching s (Some e) (e + h) true (D + 5) true = true /\
+  listed_matching s (Some e) (e + h) true (D + 5) false = false /\
+  listed_matching s (Some e) (e + h) true (s - 1) true = false /\
+  listed_matching s (Some e) (e + h) false (D + 5) false = true.
 Proof. vm_compute. repeat split; try reflexivity; discriminate. Qed.
